@@ -453,6 +453,20 @@ func phisOf(b *ssa.BasicBlock) []*ssa.Phi {
 	return out
 }
 
+// liveArg: the argument for a live-in value of a loop (a local variable that lives in memory is passed by its contents)
+func (t *fnTrans) liveArg(v ssa.Value, e *env) string {
+	if a, ok := v.(*ssa.Alloc); ok {
+		m, has := e.mem[a]
+		if !has {
+			fail("internal: no contents for the local variable %s", a.Name())
+		}
+		return argText(m)
+	}
+	return argText(t.get(v, e))
+}
+
+func allocElem(a *ssa.Alloc) types.Type { return a.Type().Underlying().(*types.Pointer).Elem() }
+
 func argText(v val) string {
 	switch v.k {
 	case kStruct:
@@ -514,7 +528,7 @@ func (t *fnTrans) enter(s *ssa.BasicBlock, src phiSrc, e *env, stop *ssa.BasicBl
 		l := rg.lp
 		parts := []string{l.name}
 		for _, v := range l.liveIn {
-			parts = append(parts, argText(t.get(v, e)))
+			parts = append(parts, t.liveArg(v, e))
 		}
 		parts = append(parts, "fuel")
 		for _, phi := range phisOf(s) {
@@ -531,6 +545,8 @@ func (t *fnTrans) enter(s *ssa.BasicBlock, src phiSrc, e *env, stop *ssa.BasicBl
 		for _, c := range l.comps {
 			if phi, ok := c.(*ssa.Phi); ok && phi.Block() == s {
 				parts = append(parts, valText(t.phiOf(phi, src, e)))
+			} else if a, isA := c.(*ssa.Alloc); isA {
+				parts = append(parts, valText(e.mem[a]))
 			} else {
 				parts = append(parts, valText(t.get(c, e)))
 			}
@@ -567,7 +583,7 @@ func (t *fnTrans) callLoop(l *loopInfo, src phiSrc, e *env, stop *ssa.BasicBlock
 	t.monadic, t.fueled = true, true
 	parts := []string{l.name}
 	for _, v := range l.liveIn {
-		parts = append(parts, argText(t.get(v, e)))
+		parts = append(parts, t.liveArg(v, e))
 	}
 	parts = append(parts, "fuel")
 	for _, phi := range phisOf(l.header) {
@@ -588,6 +604,9 @@ func (t *fnTrans) callLoop(l *loopInfo, src phiSrc, e *env, stop *ssa.BasicBlock
 	name := fmt.Sprintf("lp%d", l.ord)
 	if len(l.comps) == 1 {
 		name = ident(l.comps[0].Name())
+		if _, isA := l.comps[0].(*ssa.Alloc); isA {
+			name = "m_" + l.comps[0].Name()
+		}
 	} else if len(l.comps) == 0 {
 		name = "_"
 	}
@@ -604,6 +623,10 @@ func (t *fnTrans) callLoop(l *loopInfo, src phiSrc, e *env, stop *ssa.BasicBlock
 		ref := name
 		if len(l.comps) > 1 {
 			ref = name + tupleProj(k, len(l.comps))
+		}
+		if a, isA := c.(*ssa.Alloc); isA {
+			e.mem[a] = namedOfType(ref, allocElem(a))
+			continue
 		}
 		nv := namedOfType(ref, c.Type())
 		if phi, ok := c.(*ssa.Phi); ok && phi.Block() == l.exit {
@@ -645,8 +668,17 @@ func (t *fnTrans) genLoop(l *loopInfo) {
 			}
 		}
 		l.comps = append(l.comps, l.liveOut...)
+		for _, v := range l.liveIn {
+			if a, isA := v.(*ssa.Alloc); isA {
+				l.comps = append(l.comps, a) // the contents of a local variable in memory when the loop is left
+			}
+		}
 		for _, c := range l.comps {
-			types_ = append(types_, leanType(c.Type()))
+			if a, isA := c.(*ssa.Alloc); isA {
+				types_ = append(types_, leanType(allocElem(a)))
+			} else {
+				types_ = append(types_, leanType(c.Type()))
+			}
 		}
 	}
 	switch len(types_) {
@@ -666,8 +698,15 @@ func (t *fnTrans) genLoop(l *loopInfo) {
 		return n
 	}
 	for _, v := range l.liveIn {
-		if _, isAlloc := v.(*ssa.Alloc); isAlloc {
-			fail("a local variable that lives in memory is used inside a loop (%s)", v.Name())
+		if a, isAlloc := v.(*ssa.Alloc); isAlloc {
+			if a.Heap {
+				fail("a local variable escapes (%s)", a.Comment)
+			}
+			n := fresh("m_" + v.Name())
+			params = append(params, fmt.Sprintf("(%s : %s)", n, leanType(allocElem(a))))
+			e.mem[a] = namedOfType(n, allocElem(a))
+			e.vals[a] = val{k: kPtr, alloc: a, fidx: -1}
+			continue
 		}
 		n := fresh(ident(v.Name()))
 		params = append(params, fmt.Sprintf("(%s : %s)", n, leanType(v.Type())))
